@@ -50,6 +50,13 @@ EQUIVALENT = [
     ["def f(dct):\n    if 'a' in dct:\n        out = {'a': to_a(dct['a'])}\n    elif 'b' in dct:\n        out = {'b': to_b(dct['b'])}\n    else:\n        out = {}\n"
      "    if not out:\n        raise ValueError\n    return out",
      "def f(dct):\n    builders = {'a': to_a, 'b': to_b}\n    out = _first(dct, builders=builders)\n    if not out:\n        raise ValueError\n    return out"],
+    ["def f(dct):\n    out = {}\n    if 'a' in dct:\n        out['a'] = to_a(dct['a'])\n    elif 'b' in dct:\n        out['b'] = to_b(dct['b'])\n"
+     "    else:\n        raise ValueError\n    return out",
+     "def f(dct):\n    out = {}\n    table = {'a': to_a, 'b': to_b}\n    for k in table:\n        if k in dct:\n            out[k] = table[k](dct[k])\n            break\n"
+     "    else:\n        raise ValueError\n    return out"],
+    ["def f(self, value):\n    if not (0.0 <= value <= 10.0):\n        raise ValueError\n    self._v = value",
+     "def f(self, value):\n    lo, hi = (0.0, LIMIT)\n    if not (lo <= value <= hi):\n        raise ValueError\n    self._v = value",
+     "def f(self, value):\n    bounds = (0.0, 10.0)\n    if not (bounds[0] <= value <= bounds[1]):\n        raise ValueError\n    self._v = value"],
     # counting
     ["def f(self):\n    n = sum(1 for el in (self.a, self.b) if el is not None)\n    if n != 1:\n        raise ValueError",
      "def f(self):\n    n = 0\n    for el in (self.a, self.b):\n        if el is not None:\n            n += 1\n    if n != 1:\n        raise ValueError"],
